@@ -21,6 +21,7 @@ type c08Spec struct {
 	Alpha []string `json:"alpha,omitempty"`
 	D     int      `json:"d,omitempty"`
 	Word  []string `json:"word,omitempty"`
+	GWRise bool    `json:"gw_rise,omitempty"` // groundwater time series: deep during the warm-up, rising above the rooting depth during the word
 }
 
 var c08Alpha = []string{"dry-warm", "dry-hot-windy", "calm-dark", "no-sun-no-rad", "deep-frost", "rain", "frost"}
@@ -53,6 +54,18 @@ func c08Specs(tier string, seed int) []c08Spec {
 						out = append(out, c08Spec{Base: b, Lat: lat, Sun: i%2 == 0, Alpha: c08Alpha, D: d})
 					}
 				}
+			}
+		}
+	}
+	// a standing crop whose roots are overtaken by a rising groundwater table (time series)
+	for _, et := range []int{1, 2, 3, 4} {
+		for _, cw := range []struct {
+			crop string
+			warm int
+		}{{"SW", 45}, {"SM", 60}, {"WW", 70}} {
+			for _, so := range []string{"loam12", "sand20"} {
+				b := e1Base{Soil: so, GW: 99, InitW: 0.6, InitN: 40, Crop: cw.crop, WarmUp: cw.warm, ET: et, Start: "2001-04-10"}
+				out = append(out, c08Spec{Base: b, Lat: 52, Sun: false, Alpha: []string{"dry-warm", "dry-hot-windy", "rain"}, D: d + 1, GWRise: true})
 			}
 		}
 	}
@@ -206,6 +219,12 @@ func c08Run(raw json.RawMessage, c *mc.Ctx) {
 	p.SunColumn = sp.Sun
 	if sp.Base.ET == 5 {
 		p.Layout = 1
+	}
+	if sp.GWRise {
+		// table at 20 dm until the last warm-up day, then 3 dm from the first word day on (it stays there)
+		h0 := p.Rotation[0].Harvest
+		p.Config["GroundWaterFrom"] = "gwTimeSeries"
+		p.GWSeries = []proj.GWPoint{{Date: isoAdd(h0, -5), Level: 20}, {Date: isoAdd(h0, 1+warm), Level: 20}, {Date: isoAdd(h0, 2+warm), Level: 3}, {Date: isoAdd(h0, 10+warm), Level: 3}}
 	}
 	p.Weather = e1Weather(warm, ws[0], p.VerdColumn)
 	p.Write(root)
